@@ -41,6 +41,27 @@ func c18Case(r *fw.Rand, index string) fw.Case {
 	ops := []string{"reset " + index}
 	live := map[string]bool{}
 	files := 0
+	// time ranges of the files written so far and of the cache: a time-bounded export
+	// whose bounds are exactly a file's range is a boundary of the export's file test
+	var ranges [][2]int64
+	var cur [2]int64
+	note := func(t int64) {
+		if cur == [2]int64{} {
+			cur = [2]int64{t, t}
+		}
+		if t < cur[0] {
+			cur[0] = t
+		}
+		if t > cur[1] {
+			cur[1] = t
+		}
+	}
+	flush := func() {
+		if cur != [2]int64{} {
+			ranges = append(ranges, cur)
+			cur = [2]int64{}
+		}
+	}
 	batch := func() string {
 		n := 1 + r.Intn(8)
 		var pts []string
@@ -53,7 +74,9 @@ func c18Case(r *fw.Rand, index string) fw.Case {
 				}
 			}
 			live[m+"|"+tg] = true
-			pts = append(pts, fmt.Sprintf("%s|%s|%d|%s", m, tg, c10Base+int64(r.Intn(40))*1000, strings.Join(fs, ",")))
+			t := c10Base + int64(r.Intn(40))*1000
+			note(t)
+			pts = append(pts, fmt.Sprintf("%s|%s|%d|%s", m, tg, t, strings.Join(fs, ",")))
 		}
 		return strings.Join(pts, ";")
 	}
@@ -66,13 +89,25 @@ func c18Case(r *fw.Rand, index string) fw.Case {
 		return strings.Join(l, ";")
 	}
 	backup := func() {
+		flush()
 		mode := "full"
 		switch r.Intn(6) {
 		case 0:
 			mode = "import"
 		case 1:
 			lo := c10Base + int64(r.Intn(30))*1000
-			mode = fmt.Sprintf("export:%d:%d", lo, lo+int64(r.Intn(20))*1000)
+			hi := lo + int64(r.Intn(20))*1000
+			if len(ranges) > 0 && r.Intn(2) == 0 {
+				g := ranges[r.Intn(len(ranges))]
+				lo, hi = g[0], g[1]
+				switch r.Intn(6) { // mostly exact, sometimes one end off by one instant
+				case 0:
+					lo -= 1000
+				case 1:
+					hi += 1000
+				}
+			}
+			mode = fmt.Sprintf("export:%d:%d", lo, hi)
 		}
 		ops = append(ops, fmt.Sprintf("bk %s %s v,n", mode, liveList()))
 		// the source must be unchanged
@@ -91,6 +126,7 @@ func c18Case(r *fw.Rand, index string) fw.Case {
 			ops = append(ops, "w "+batch())
 		case 3:
 			ops = append(ops, "snap")
+			flush()
 			files++
 		case 4:
 			if files >= 2 {
